@@ -391,7 +391,7 @@ def run(pid, tier, seed, only_case=None):
     plan = PLANS[pid]
     ctx = common.Ctx(pid, tier, seed)
     quick = tier == "quick"
-    ctx.write_evidence = only_case is None
+    ctx.write_evidence = ctx.write_evidence and only_case is None
     whats = [plan["what"]] if pid != "C08" else ["momentum", "angmom"]
     cases = []
     for what in whats:
